@@ -56,3 +56,47 @@ Theorem C04_cron_predicate_holds : forall nxt sc tr s,
   VSysProofs.vrun nxt sc vsys_init tr = Some s -> existsb VSysProofs.is_new (tl tr) = false -> vc04_ok tr = true.
 Proof. exact VSysProofs.VC04_predicate_holds. Qed.
 Print Assumptions C04_cron_predicate_holds.
+
+(* ---- finer than the property's quantifier: a cron edit BETWEEN the Peek and the Pop that one
+   volatileTaskRepo.MarkAsDispatched issues (model VSplit.v).  There the FULL statement is false of the faithful model
+   (recorded finding F21, reproduced on the implementation by suite c04-vsys-split): an edit that ADDS an entry whose
+   first occurrence sorts before the head the Peek has just seen makes Pop remove that occurrence instead; the announced
+   task runs, its own occurrence stays pending, is announced again under the same id and runs a second time. *)
+From GK Require Import VSplit.
+From GK.Proofs Require VSplitProofs VSplitProofs2.
+
+Definition C04_cron_split_full : Prop := forall nxt sc tr s,
+  xrun nxt sc vsys_init tr = Some s -> NoDup (map (fun x => fst (fst x)) (vs_starts s)).
+
+Theorem C04_cron_split_refuted :
+  exists tr s, xrun VSysProofs.ex_nxt scfg_fixed vsys_init tr = Some s /\ xsplits tr = 1%nat
+    /\ map (fun x => fst (fst x)) (vs_starts s) = ["A"; "A"]
+    /\ ~ NoDup (map (fun x => fst (fst x)) (vs_starts s))
+    /\ existsb VSysProofs.is_new (tl (xplain tr)) = false
+    /\ vc04_ok (xplain tr) = false /\ vc03_ok (xplain tr) = true
+    /\ VSplitProofs2.xsafe VSysProofs.ex_nxt scfg_fixed vsys_init tr = false
+    /\ xsys_check VSysProofs.ex_nxt scfg_pinned vsys_init tr 0 = None.
+Proof. exact VSplitProofs2.XC04_at_most_once_refuted. Qed.
+Print Assumptions C04_cron_split_refuted.
+
+Theorem C04_cron_split_full_refuted : ~ C04_cron_split_full.
+Proof.
+  intros H. destruct VSplitProofs2.XC04_at_most_once_refuted as (tr & s & Hr & _ & _ & Hn & _).
+  exact (Hn (H _ _ _ _ Hr)).
+Qed.
+Print Assumptions C04_cron_split_full_refuted.
+
+(* what holds (..._partial): no id starts twice in any accepted extended trace all of whose split calls leave the
+   announced occurrence no longer pending (the edit removed its entry, or the Pop took it) - [xsafe] is computable and
+   is evaluated on the model's run of the observed trace by the signature of F21 *)
+Theorem C04_cron_split_at_most_once_partial : forall nxt sc tr s,
+  xrun nxt sc vsys_init tr = Some s -> VSplitProofs2.xsafe nxt sc vsys_init tr = true ->
+  NoDup (map (fun x => fst (fst x)) (vs_starts s)).
+Proof. exact VSplitProofs2.XC04_at_most_once_safe. Qed.
+Print Assumptions C04_cron_split_at_most_once_partial.
+
+Theorem C04_cron_split_predicate_partial : forall nxt sc tr s,
+  xrun nxt sc vsys_init tr = Some s -> VSplitProofs2.xsafe nxt sc vsys_init tr = true ->
+  existsb VSysProofs.is_new (tl (xplain tr)) = false -> vc04_ok (xplain tr) = true.
+Proof. exact VSplitProofs2.XC04_predicate_holds_safe. Qed.
+Print Assumptions C04_cron_split_predicate_partial.
